@@ -220,7 +220,7 @@ def run(prog, rep):
                    "blocking socket: after %s reports would-block a path %s without waiting: the call fails at once with a would-block error instead of waiting for the timeout"
                    % (name, ("%s at line %d" % (e[0], e[1])) if e else "does not re-issue the call"), c, e[2] if e else None)
     # every WAIT call inside an I/O operation is guarded by socket->blocking
-    for fn in u.functions.values():
+    for fn in u.roots():
         if fn.name == WAIT:
             continue
         waits = [(b, i, c) for (b, i, c) in fn.calls() if c.get("callee") == WAIT]
